@@ -226,6 +226,7 @@ class Plan:
         self.raise_at = None
         self.exc = None
         self.zombie = False
+        self.zombie_sdead = False
         self.log = []
         self.pid0_listed = False
         self.pid_exists = True
@@ -331,7 +332,10 @@ def record(name):
     vals = [slot_value(name, i) for i in range(len(slots))]
     if "status" in slots:
         i = slots.index("status")
-        vals[i] = const("psutil." + PLATFORMS[PLATFORM]["ext"], "SZOMB") \
+        # OpenBSD lists a dead-but-unreaped process as SDEAD (SZOMB is
+        # unused there, psutil/_psbsd.py PROC_STATUSES): both mean "zombie"
+        zname = "SDEAD" if (PLATFORM == "openbsd" and getattr(PLAN, "zombie_sdead", False)) else "SZOMB"
+        vals[i] = const("psutil." + PLATFORMS[PLATFORM]["ext"], zname) \
             if PLAN.zombie else const("x", "SRUN-ish")
     if "name" in slots:
         vals[slots.index("name")] = "stubproc"
@@ -468,6 +472,7 @@ def strategy(tier):
     fault_case = st.fixed_dictionaries(dict(
         kind=st.just("fault"), method=st.integers(0, 60), err=fault,
         at=st.sampled_from([0, 0, 0, 1, 2]), zombie=st.booleans(),
+        sdead=st.booleans(),
         cached_name=st.sampled_from([None, "cached-name"]), pid=st.sampled_from([PID, PID, 0]),
         pid0_listed=st.booleans()))
     procfs_case = st.fixed_dictionaries(dict(
@@ -482,6 +487,7 @@ def strategy(tier):
         st.fixed_dictionaries(dict(
             kind=st.just("fault"), method=st.integers(0, 60), err=fault,
             at=st.sampled_from([0, 0, 0, 1, 2]), zombie=st.booleans(),
+            sdead=st.booleans(),
             cached_name=st.sampled_from([None, "cached-name"]), pid=st.sampled_from([PID, PID, 0]),
             pid0_listed=st.booleans())),
         st.fixed_dictionaries(dict(kind=st.just("slots"), method=st.integers(0, 60),
@@ -525,6 +531,7 @@ def run_child_case(case):
         m = methods[case["method"] % len(methods)]
         PLAN.reset()
         PLAN.zombie = case["zombie"] and PLATFORM != "windows"
+        PLAN.zombie_sdead = bool(case.get("sdead"))
         PLAN.pid0_listed = case["pid0_listed"]
         # the PID is gone only for a "no such process" failure without zombie
         nsp_class = (isinstance(case["err"], str) and case["err"] in nsp_errnos())
